@@ -29,6 +29,11 @@ CLAIMED = {
             "Seeded search over thread interleavings at source-line granularity of 2-3 tasks x 1-3 store operations (plus the store's own regeneration thread on a virtual timer); each explored schedule must be deadlock-free (exact verdict), keep balances non-negative and be linearizable. Sampling of schedules, not enumeration.",
             "Trusts CPython, sys.settrace, the scheduler in opsim/sched.py and the checker in opsim/lin.py; a transfer is specified as two atomic steps; the real store run single-threaded is the sequential specification (its semantics are pinned by C04).",
             "DESIGN 4 C05"),
+    "C13": ("exploration",
+            "deterministic simulation: seeded histories with digester/callback faults and virtual-clock retention moves on the real Lysosome under a sim lock, plus 2-task line-granularity schedules; identity ledger oracle",
+            "Seeded search over (a) sequential histories with per-item digester and toxic-callback faults, capacity/auto-digest boundaries and clock moves around the retention period, and (b) two-task interleavings at source-line granularity; a self-deadlock is an exact verdict of the simulated lock, and every item is tracked by identity through fake digesters. Sampling, not proof.",
+            "Trusts CPython, sys.settrace, opsim/sched.py and the ledger in props/c13.py; items that vanish unhandled are tolerated only during an at-capacity ingest ('emergency-dropped'); digesters do not re-enter the lysosome.",
+            "DESIGN 4 C13"),
 }
 
 
